@@ -611,6 +611,17 @@ func c07Check(c C07Case, cx *h.Ctx) *h.Failure {
 		return h.Failf("twkb/marshal-error", "MarshalTWKB(%s, %d) fails: %v", model, c.PrecXY, err)
 	}
 
+	// the returned bytes are the caller's: later encodings leave them alone
+	{
+		held := append([]byte(nil), b...)
+		for _, other := range []geom.Geometry{dirty(model.T), g, dirty(gm.MultiPoint)} {
+			geom.MarshalTWKB(other, c.PrecXY, opts...)
+			geom.MarshalTWKB(other, 0)
+		}
+		if !bytes.Equal(b, held) {
+			return h.Failf("twkb/result-overwritten", "the bytes returned by MarshalTWKB changed after later MarshalTWKB calls:\nwas %x\nnow %x", held, b)
+		}
+	}
 	node, rerr := codec.ReadTWKB(b)
 	if rerr != nil {
 		return h.Failf("twkb/independent-reader-error", "independent TWKB reader rejects the output for %s: %v\n%x", model, rerr, b)
